@@ -63,6 +63,8 @@ Failures(T) ==
          IN Fail("C13", "GreedyNoException", T.exc = "")
        \cup (IF T.exc # "" THEN {} ELSE
             Fail("C13", "GreedyNeverRepeatsACoalition", NoDup(T.seq) /\ AsSet(T.seq) \subseteq U)
+       \cup Fail("C13", "GreedyRevealsAsManyCoalitionsAsAsked",
+                 T.max_steps <= Cardinality(U) => (Len(T.seq) = T.max_steps /\ Len(T.rows) = T.max_steps + 1))
        \cup Fail("C13", "GreedyExtendsByAMinimiserOfTheMeanGap",
                  \A s \in 1..steps : \A c \in U \ chosen(s - 1) :
                      SumGap(cfg, K0, chosen(s), T.games) <= SumGap(cfg, K0, chosen(s - 1) \cup {c}, T.games) + T.eps)
